@@ -14,16 +14,16 @@ CHECKS = {
    text="FIFO equality with a queue model on non-overlapping histories and per-producer order per consumer under overlap held on everything generated", note="as C01", ref="DESIGN.md §5 C02"),
  "C03": dict(engine="E1+E2+E3", technique="property-based testing: try_send success iff model not full and not closed plus len/is_full/capacity observers on sequential histories (E1); sound occupancy bound (completed sends minus what started receives can hold <= capacity) on async histories (E2) and under generated schedules (E3)",
    text="capacity respected on every generated history / schedule; blocking and async sends never reported success beyond capacity", note="as C01; the bounded-mpsc credit grey zone (space the consumer has not published yet) is accepted as waiting, see DESIGN §9", ref="DESIGN.md §5 C03"),
- "C04": dict(engine="E1+E2+E3 (+ broadcast and topic models)", technique="property-based testing: generated clone/close/drop/convert orders with every operation form on every handle state against the disconnect model (E1 for p2p, broadcast and topic), pending futures across disconnects (E2), drops racing in-flight operations under generated schedules (E3)",
+ "C04": dict(engine="E1+E2+E3 (+ broadcast and topic models, E3-topic)", technique="property-based testing: generated clone/close/drop/convert orders with every operation form on every handle state against the disconnect model (E1 for p2p, broadcast and topic), pending futures across disconnects (E2), drops racing in-flight operations under generated schedules (E3)",
    text="drain-then-Disconnected, Closed-with-hand-back, clone independence, self-closed handles rejecting, idempotent close held on everything generated", note="as C01; cloning an already closed handle is treated as outside the specified domain (DESIGN §9)", ref="DESIGN.md §5 C04"),
- "C05": dict(engine="E3", technique="property-based testing over (program, schedule) pairs: terminating-by-specification producer/consumer programs run under generated schedules with a controlled scheduler; a deadlock verdict (every unfinished thread blocked) is precise, not a timeout",
-   text="no generated schedule of any generated terminating program left a thread parked forever; step-budget exhaustion is counted as inconclusive", note="sequentially consistent schedules only; 2-4 threads; timeouts are virtual (a timed park yields once, then the timeout has elapsed); topic mailboxes and oneshot are not routed through the controlled scheduler", ref="DESIGN.md §5 C05"),
- "C06": dict(engine="E2 (+ topic receive tasks)", technique="property-based testing: generated spawn/poll/wake/cancel/re-poll-with-new-waker histories on a harness-owned single-threaded executor with an operational stall oracle (forced poll after every delivered wake was polled) and conservation across cancellations",
-   text="every pending async operation that could complete had been woken, and cancellation lost/duplicated nothing, on every generated history (one open known finding for rendezvous channels)", note="single-threaded; a parked Stream is never abandoned by the harness; closing a handle with its own future pending is not generated; see DESIGN §9", ref="DESIGN.md §5 C06"),
+ "C05": dict(engine="E3 (+E3-topic)", technique="property-based testing over (program, schedule) pairs: terminating-by-specification producer/consumer programs run under generated schedules with a controlled scheduler; a deadlock verdict (every unfinished thread blocked) is precise, not a timeout",
+   text="no generated schedule of any generated terminating program left a thread parked forever; step-budget exhaustion is counted as inconclusive", note="sequentially consistent schedules only; 2-4 threads; timeouts are virtual (a timed park yields once, then the timeout has elapsed); spurious unparks and spurious compare_exchange_weak failures are part of the generated schedules; every atomic access is followed by a second scheduling point (hook), oneshot and topic mailboxes are routed through the controlled scheduler too (hooks H1b/H1c)", ref="DESIGN.md §5 C05"),
+ "C06": dict(engine="E2 (+ topic receive tasks) + E3 cancel families", technique="property-based testing: generated spawn/poll/wake/cancel/re-poll-with-new-waker histories on a harness-owned single-threaded executor with an operational stall oracle (forced poll after every delivered wake was polled) and conservation across cancellations (E2); generated thread programs in which futures are polled to Pending and abandoned while threads of the other handle form are parked or draining, under generated schedules with a deadlock verdict (E3)",
+   text="every pending async operation that could complete had been woken, and cancellation lost/duplicated nothing, on every generated history (one open known finding for rendezvous channels)", note="E2 is single-threaded; a parked Stream is never abandoned by the harness; closing a handle with its own future pending is not generated; E3 part: sequentially consistent schedules of 2-4 threads; see DESIGN §9, §10.7", ref="DESIGN.md §5 C06"),
  "C07": dict(engine="E1-broadcast+E2+E3", technique="property-based testing: generated single-sender / multi-receiver histories against a send-log + per-receiver-cursor model; generated schedules for the blocked-sender / dropped-receiver interplay",
-   text="every receiver saw exactly the suffix of the send log from its creation point, backpressure matched the slowest live receiver, and no schedule deadlocked, on everything generated", note="sequential model for exact outcomes; E3 checks conservation/order/deadlock only", ref="DESIGN.md §5 C07"),
- "C08": dict(engine="E1-topic", technique="property-based testing: generated subscribe/unsubscribe/clone/close/publish histories against a model of subscription sets and bounded drop-newest mailboxes",
-   text="routing by subscription, drop-newest-only-when-full and the disconnect rule held on every generated sequential history", note="publishing never overlaps a subscription change (sequential histories); topic mailboxes use std parking and are not schedulable under E3", ref="DESIGN.md §5 C08"),
+   text="every receiver saw exactly the suffix of the send log from its creation point, backpressure matched the slowest live receiver, and no schedule deadlocked, on everything generated", note="sequential model for exact outcomes; E3 checks conservation/order/deadlock and that no slot is overwritten or destroyed while a receiver is still copying its value out (payload Clone is a scheduling point)", ref="DESIGN.md §5 C07"),
+ "C08": dict(engine="E1-topic + E4-topic (real threads) + E3-topic", technique="property-based testing: generated subscribe/unsubscribe/clone/close/publish histories against a model of subscription sets and bounded drop-newest mailboxes (E1); real-thread rounds with subscription churn and with receivers racing to subscribe to a never-used topic (E4); generated publisher/receiver thread programs under generated schedules with an interval oracle (Sub/Unsub/Maybe segments per receiver and topic on a logical clock: nothing invented or duplicated, no foreign topic, publish order, no omission while definitely subscribed with provable mailbox room, Disconnected only after every sender began to go away and observed once they are gone) (E3)",
+   text="routing by subscription, drop-newest-only-when-full and the disconnect rule held on every generated sequential history, on every real-thread round and under every generated schedule of every generated publisher/receiver program", note="E3: sequentially consistent schedules of 2-5 threads; papaya's subscription map is not instrumented (no preemption inside it: the E4 rounds cover the first-subscribe race statistically); 'publishing never blocks' is checked as 'returns' (a publish that could not return would be reported as a deadlock), not as a latency bound", ref="DESIGN.md §5 C08"),
  "C09": dict(engine="E1+E2+E3", technique="property-based testing: payloads with observable Drop registered in a per-case registry; generated teardown orders incl. buffered items, wrapped rings, recycled chunks/slabs, pending and cancelled futures, drops racing operations under generated schedules; oracle = every instance dropped exactly once",
    text="no leak and no double drop on every generated history / schedule", note="as C01; double drops are detected by a poisoned-instance marker, use-after-free only where it changes behaviour (valgrind/ASan are not part of the quick tier)", ref="DESIGN.md §5 C09"),
  "C10": dict(engine="E2-locks+E3-locks", technique="property-based testing: generated single-threaded histories of async/try acquisitions, releases, cancellations before/after wake, re-polls with new wakers and reader streams (writer-starvation probe) on a harness-owned executor (E2-locks); generated lock/try/async/cancel thread programs over HybridMutex and HybridRwLock under generated schedules with occupancy counters inside the protected value and a deadlock verdict from the controlled scheduler (E3-locks)",
